@@ -8,6 +8,12 @@ Every function renders a complete document with tests.testing_utils.render_pages
 Floats are returned as exact 'numerator/denominator' strings (Fraction(float))."""
 from fractions import Fraction
 
+# imported at module level on purpose: common._worker_call imports this module BEFORE arming its alarm, so the
+# (slow, ~1 s) first import of weasyprint can never be interrupted by a short per-case time limit
+from tests.testing_utils import render_pages
+import weasyprint.layout.grid as G
+import p_c12grid          # the HTML builders live on the harness side (pure Python, no weasyprint import)
+
 _CAP = {}
 _PATCHED = [False]
 
@@ -15,7 +21,6 @@ _PATCHED = [False]
 def _patch():
     if _PATCHED[0]:
         return
-    import weasyprint.layout.grid as G
     orig = G._resolve_tracks_sizes
 
     def wrapped(sizing_functions, box_size, children_positions, implicit_start, direction, gap, context,
@@ -41,36 +46,7 @@ def _q(x):
     return str(Fraction(x))
 
 
-def gl_css(g):
-    if g == 'auto':
-        return 'auto'
-    k, n = g
-    return ('%d' % n) if k == 'L' else ('span %d' % n)
-
-
-def place_html(case):
-    """case: dict(cols=[px], rows=[px], auto_col, auto_row, flow, width, gap_c, gap_r,
-                   items=[dict(cs, ce, rs, re, order)]) ; a grid line is 'auto' | ['L', n] | ['S', n]."""
-    st = ['display:grid', 'width:%dpx' % case['width'],
-          'grid-auto-columns:%dpx' % case['auto_col'], 'grid-auto-rows:%dpx' % case['auto_row'],
-          'grid-auto-flow:%s' % case['flow'], 'column-gap:%dpx' % case['gap_c'], 'row-gap:%dpx' % case['gap_r']]
-    if case['cols']:
-        st.append('grid-template-columns:' + ' '.join('%dpx' % c for c in case['cols']))
-    if case['rows']:
-        st.append('grid-template-rows:' + ' '.join('%dpx' % c for c in case['rows']))
-    if case.get('extra'):
-        st.append(case['extra'])
-    items = []
-    for i, it in enumerate(case['items']):
-        s = 'grid-column-start:%s;grid-column-end:%s;grid-row-start:%s;grid-row-end:%s;order:%d' % (
-            gl_css(it['cs']), gl_css(it['ce']), gl_css(it['rs']), gl_css(it['re']), it['order'])
-        items.append('<div id=i%d style="%s"></div>' % (i, s))
-    return ('<style>@page{size:4000px 4000px;margin:0}body{margin:0}#c{%s}</style><div id=c>%s</div>'
-            % (';'.join(st), ''.join(items)))
-
-
 def _render(html, n_items):
-    from tests.testing_utils import render_pages
     _patch()
     _CAP.clear()
     pages = render_pages(html)
@@ -92,43 +68,11 @@ def _render(html, n_items):
 
 
 def place(case):
-    return _render(place_html(case), len(case['items']))
-
-
-def tracks_html(case):
-    """case: dict(cols=[track], rows=[track], width, height, gap_c, gap_r, jc, ac,
-                   items=[dict(x, y, w, h, cw, chh)])  track = ['px', n] | ['pct', n] | ['fr', 'a/b'];
-    items are placed by explicit line numbers (x, y 0-based, spans w, h) and contain one fixed-size block
-    (cw x chh px, 0 = none) so that min-content contributions are exactly known."""
-    def tr(t):
-        k, v = t
-        if k == 'px':
-            return '%dpx' % v
-        if k == 'pct':
-            return '%d%%' % v
-        return '%sfr' % (repr(float(Fraction(v))))
-    st = ['display:grid', 'width:%dpx' % case['width'], 'height:%dpx' % case['height'],
-          'column-gap:%dpx' % case['gap_c'], 'row-gap:%dpx' % case['gap_r'],
-          'grid-template-columns:' + ' '.join(tr(t) for t in case['cols']),
-          'grid-template-rows:' + ' '.join(tr(t) for t in case['rows'])]
-    if case['jc'] != 'normal':
-        st.append('justify-content:' + case['jc'])
-    if case['ac'] != 'normal':
-        st.append('align-content:' + case['ac'])
-    items = []
-    for i, it in enumerate(case['items']):
-        s = 'grid-column-start:%d;grid-column-end:span %d;grid-row-start:%d;grid-row-end:span %d' % (
-            it['x'] + 1, it['w'], it['y'] + 1, it['h'])
-        inner = ''
-        if it['cw'] or it['chh']:
-            inner = '<div style="width:%dpx;height:%dpx"></div>' % (it['cw'], it['chh'])
-        items.append('<div id=i%d style="%s">%s</div>' % (i, s, inner))
-    return ('<style>@page{size:4000px 4000px;margin:0}body{margin:0}#c{%s}</style><div id=c>%s</div>'
-            % (';'.join(st), ''.join(items)))
+    return _render(p_c12grid.place_html(case), len(case['items']))
 
 
 def tracks(case):
-    return _render(tracks_html(case), len(case['items']))
+    return _render(p_c12grid.tracks_html(case), len(case['items']))
 
 
 def html(case):
